@@ -16,14 +16,15 @@ class Check(EngineCheck):
                 # refinement: every trace of the concrete engine model (all programs, schedules, cancellation points) is accepted
                 "LLBuild.Refine.refinement_final", "LLBuild.Refine.refinement_build", "LLBuild.Refine.opOk_iff_noBad",
                 "LLBuild.Refine.EngineImpl_sound_C01", "LLBuild.Refine.EngineImpl_sound_C02_once",
-                "LLBuild.Refine.EngineImpl_sound_C05_quiescent"]
+                "LLBuild.Refine.EngineImpl_sound_C05_quiescent",
+                "LLBuild.Refine.build_terminates", "LLBuild.Refine.refinement_final_sized", "LLBuild.Refine.EngineImpl_terminates"]
     mix = [(0.5, {}), (0.5, {"threads": True})]
     budget = (300, 3000)
     cross_schedule = True
     assumptions = EngineCheck.assumptions + [
         "lost wake-ups, deadlock and exactly-once hand-off are proved at LOCK GRANULARITY on a model of the two critical sections (Model/Handshake.lean) whose shape parameters are read from the source by the fingerprint extractor; data races below lock granularity (C++ memory model) are not expressible; the free-threaded harness runs exercise the real code",
         "equality of the executed set across schedules is decided by the python oracle (same history, two schedules), not by a theorem",
-        "refinement_final: hypotheses RulesOk (request kinds <= 2, ids <= kMaximumInputID, ids distinct within a rule) and histOk (no build emits the concrete model's FUEL/BAD markers, i.e. its loop fuel suffices; the memory-safety BADs are proved unreachable); the concrete model does not cover injected database write failures, forked crashes, free-running completion threads, or a delegate that resolves cycles"]
+        "refinement_final: hypotheses RulesOk (request kinds <= 2, ids <= kMaximumInputID, ids distinct within a rule) and histOk (no build emits the concrete model's FUEL/BAD markers), which refinement_final_sized replaces by the computable size condition histSized (workBound + 2 < scanFuel at every build; build_terminates); the concrete model does not cover injected database write failures, forked crashes, free-running completion threads, or a delegate that resolves cycles"]
 
 
 CHECK = Check()
